@@ -130,6 +130,13 @@ class DomainParser:
 
             same_type_constants.append(constant_name)
 
+        # constants that are listed after the last type marker are of the default type.
+        constants.update(
+            {
+                name: PDDLConstant(name, domain_types["object"])
+                for name in same_type_constants
+            }
+        )
         self.logger.debug(f"Extracted {len(constants)} from the domain.")
         return constants
 
